@@ -136,6 +136,15 @@ def register(m):
     m("C19", "b4-title-function-loop-condition-ok", PARSE,
       "    while True:\n        if not description_lines or description_lines[0]:\n            break\n        description_lines.pop(0)\n",
       "    while description_lines and not description_lines[0]:\n        description_lines.pop(0)\n", "SILENT")
+    SYMB = "symplyphysics/core/symbols/symbols.py"
+    m("C09", "b4-indexed-symbol-rebuilt-by-doit-regression", SYMB,
+      "    def doit(self, **_hints: Any) -> IndexedSymbol:\n        # There is nothing to evaluate in an indexed symbol. SymPy would rebuild it from its label\n"
+      "        # otherwise, and the rebuilt object has neither the display names nor the dimension.\n        return self\n\n", "", "N5",
+      note="the genuine defect repaired in 61d1010")
+    m("C09", "b4-indexed-symbol-func-identity-ok", SYMB,
+      "    def doit(self, **_hints: Any) -> IndexedSymbol:\n        # There is nothing to evaluate in an indexed symbol. SymPy would rebuild it from its label\n"
+      "        # otherwise, and the rebuilt object has neither the display names nor the dimension.\n        return self\n",
+      "    @property\n    def func(self) -> Any:\n        return lambda *_args: self\n", "SILENT")
     # C09 N1: factories hand out fresh systems
     m("C09", "b2-transform-returns-argument", CSYS,
       ") -> CoordinateSystem:\n    new_coord_system = from_system.coord_system.create_new(",
